@@ -1,4 +1,5 @@
 # per-property run configuration read by run.py without importing torch
 CONFIG = {
-    # "C20": {"shards": {"quick": 4, "thorough": 16}, "timeout": {"quick": 300, "thorough": 3000}},
+    "C06": {"shards": {"quick": 14, "thorough": 16}, "timeout": {"quick": 900, "thorough": 3400}},
+    "C01": {"shards": {"quick": 10, "thorough": 16}},
 }
